@@ -12,14 +12,15 @@ res = {}
 try:
     r = sh("git -C /repo worktree add --detach %s HEAD" % wt)
     assert r.returncode == 0, r.stderr
+    env = dict(os.environ, JAX_PLATFORMS="cpu")
+    # unchanged reference: the clean worktree of HEAD itself, before the patch goes on (never /repo's working tree, which seed runs patch temporarily)
+    r0 = sh("PYTHONPATH=%s /venv/bin/python %s/demo.py" % (wt, cand), env=env, cwd="/tmp")
     r = sh("git -C %s apply %s/patch.diff" % (wt, cand))
     res["applies"] = r.returncode == 0
     if not res["applies"]:
         res["apply_err"] = r.stderr[-500:]
     else:
-        env = dict(os.environ, JAX_PLATFORMS="cpu")
         r1 = sh("PYTHONPATH=%s /venv/bin/python %s/demo.py" % (wt, cand), env=env, cwd="/tmp")
-        r0 = sh("PYTHONPATH=/repo /venv/bin/python %s/demo.py" % cand, env=env, cwd="/tmp")
         res["demo_with_change_exit"] = r1.returncode
         res["demo_unchanged_exit"] = r0.returncode
         res["demo_with_change_tail"] = (r1.stdout + r1.stderr)[-400:]
